@@ -62,6 +62,83 @@ func vC18Producer(mode int) {
 	vReach()
 }
 
+// an interceptor that makes the message bigger
+type vGrowSend struct{ by int }
+
+func (g *vGrowSend) OnSend(m *ProducerMessage) {
+	old, _ := m.Value.Encode()
+	m.Value = ByteEncoder(append(append([]byte{}, old...), make([]byte, g.by)...))
+}
+
+// C18 (producer, messages the pipeline refuses): a submitted message that the dispatcher
+// rejects (too large, or record headers on a version that has none) was still shown to every
+// interceptor exactly once, in order; and the limits apply to the message as the interceptors
+// left it (one grown past MaxMessageBytes is rejected, not produced).
+func verifHarness_C18_producerRejected() {
+	c := vProdCfg{n: 2, parts: 1, brokers: 1, retryMax: 1, delay: 0, maxMessageBytes: 100}
+	var order []int
+	chainLen := 1 + vChoose("chain", 2)
+	var chain []*vCountSend
+	for i := 0; i < chainLen; i++ {
+		ic := &vCountSend{id: i, calls: map[*ProducerMessage]int{}, order: &order}
+		chain = append(chain, ic)
+		c.interceptors = append(c.interceptors, ic)
+	}
+	chain[0].panics = vChoose("firstPanics", 2) == 1
+	bad := vChoose("refusedMessage", 2) // which of the two messages is the one to be refused
+	why := vChoose("refusal", 3)
+	switch why {
+	case 0: // submitted too large
+		c.valueLen = []int{1, 1}
+		c.valueLen[bad] = 200
+		c.version = V0_11_0_0
+	case 1: // headers before 0.11
+		c.headersOn = bad + 1
+		c.version = V0_10_2_0
+	case 2: // grown past the limit by the last interceptor of the chain
+		c.valueLen = []int{1, 1}
+		c.interceptors = append(c.interceptors, &vGrowSend{by: 200})
+		c.version = V0_11_0_0
+	}
+	c.class = vSprintf("rejected,why=%d,bad=%d", why, bad)
+	r := vRunProducer(c)
+	for _, ic := range chain {
+		for _, m := range r.msgs {
+			vAssert(ic.calls[m] == 1, "interceptor-applied-once-to-every-submitted-message")
+		}
+		vAssert(ic.total == len(r.msgs), "interceptor-applied-to-nothing-else")
+	}
+	for i := range order {
+		vAssert(order[i] == i%chainLen, "configuration-order")
+	}
+	for i, m := range r.msgs {
+		refused := i == bad || why == 2
+		for _, e := range r.events {
+			if e.msg != m {
+				continue
+			}
+			if refused {
+				vAssert(e.err != nil, "refused-message-reported-as-error")
+				if why == 1 {
+					_, isConf := e.err.(ConfigurationError)
+					vAssert(isConf, "headers-on-old-version-is-a-configuration-error")
+				} else {
+					vAssert(e.err == ErrMessageSizeTooLarge, "limit-applies-to-the-message-as-intercepted")
+				}
+			} else {
+				vAssert(e.err == nil, "other-message-succeeds")
+			}
+		}
+		if refused {
+			for _, le := range r.cl.logs[0] {
+				vAssert(le.id != byte(i+1), "refused-message-not-written")
+			}
+		}
+	}
+	r.assertC01()
+	vReach()
+}
+
 func verifHarness_C18_producerFaults()    { vC18Producer(0) }
 func verifHarness_C18_producerSchedules_T() { vC18Producer(1) }
 
